@@ -445,3 +445,125 @@ def part_writer(chk, drv, runner):
                       no_input=True)
     chk.count("writer", stats["streams_judged"], nontriv, samples=[{"pages": docs[i][1], "objects": docs[i][2][:200], "roles": {k: v[2] + [v[3]] for k, v in docs[i][3].items()}} for i in (0, len(docs) - 1)])
     chk.cov["parts"]["writer"].update(stats)
+    part_writer_api(chk, drv, runner, docs, wd)
+
+
+API_CONFIGS = ["1-0g", "010g", "011g", "010n", "100g", "0-0g", "1-1g", "010a"]     # qdf, normalize asked (-/0/1), compress, decode level
+
+
+def part_writer_api(chk, drv, runner, docs, wd):
+    """the same documents through QPDFWriter's API (harness/drv_contentw.cc) after setFilterOnWrite(false) / replaceStreamData on some
+    streams: the attributes of will_filter_stream that the command line never sets"""
+    rng = chk.rng
+    jobs = []
+    for i, (path, pages, objs, sdict, judge) in enumerate(docs):
+        for c in ([API_CONFIGS[i % len(API_CONFIGS)], API_CONFIGS[(i + 3) % len(API_CONFIGS)]] if chk.tier == "quick" else API_CONFIGS):
+            ops = {}
+            for k in sorted(sdict):
+                r = rng.random()
+                ops[k] = "f" if r < 0.3 else ("m" if r < 0.55 else "")
+            jobs.append((i, c, ops))
+    lines_d, lines_m, outs = [], [], []
+    eff_q = common.run_lines(runner, ["cinorm %s %s" % (c[0], c[1]) for c in API_CONFIGS])
+    eff = {c: e == "1" for c, e in zip(API_CONFIGS, eff_q)}
+    for ji, (i, c, ops) in enumerate(jobs):
+        path, pages, objs, sdict, judge = docs[i]
+        out = os.path.join(wd, "api%d-%d.pdf" % (i, ji))
+        outs.append(out)
+        opl = []
+        ss = []
+        for k, (num, rootmd, _, enc, stored) in sorted(sdict.items()):
+            if ops[k] == "f":
+                opl.append("%d:f" % num)
+            elif ops[k] == "m":
+                opl.append("%d:m%s" % (num, hexs(w_data(k))))
+            if ops[k] == "m":
+                h = hexs(w_data(k))
+                ss.append("%d=110%s0:%s:%s:%s:%s" % (num, "1" if rootmd else "0", h, h, h, h))
+            else:
+                h = hexs(w_data(k)) if enc != "undecodable" else "X"
+                ss.append("%d=%s0%s%s0:%s:%s:%s:%s" % (num, "0" if ops[k] == "f" else "1", "1" if enc == "flate" else "0", "1" if rootmd else "0", hexs(stored), h, h, h))
+        lines_d.append("ciwriteapi %s %s %s %s" % (path, out, c, ",".join(opl) or "-"))
+        lines_m.append("ciwrite %s%s0%s00 %s %s %s" % ("1" if eff[c] else "0", c[2], c[3], pages, objs, ",".join(ss)))
+    impl = common.run_lines(drv, lines_d, shards=4)
+    model = common.run_lines(runner, lines_m, shards=4)
+    stats = {"jobs": len(jobs), "streams_judged": 0, "filter_on_write_off": 0, "filter_on_write_off_page_content": 0, "data_replaced": 0, "normalised": 0}
+    nontriv = set()
+    tie = []
+    for ji, (i, c, ops) in enumerate(jobs):
+        path, pages, objs, sdict, judge = docs[i]
+        rep = {"part": "writer-api", "replay": lines_d[ji][:1500], "config": c, "pages": pages, "objects": objs[:400]}
+        if not impl[ji].startswith("ok"):
+            chk.violation(dict(rep, kind="property-fails-on-implementation", why="QPDFWriter threw on a valid document: " + impl[ji][:300]), signature="C16:writer-api:exc")
+            continue
+        got = out_streams(outs[ji])
+        if got is None:
+            chk.violation(dict(rep, kind="property-fails-on-implementation", why="output is not strictly readable"), signature="C16:writer-api:strict")
+            continue
+        mod = {}
+        for item in model[ji].split(","):
+            num, v = item.split("=")
+            dat, nrm, nw = v.split(".")
+            mod[int(num)] = (bytes.fromhex(dat) if dat != "-" else b"", nrm == "1")
+        for k, (num, rootmd, rl, enc, stored) in sorted(sdict.items()):
+            stats["streams_judged"] += 1
+            stats["filter_on_write_off"] += ops[k] == "f"
+            stats["filter_on_write_off_page_content"] += ops[k] == "f" and judge[k]
+            stats["data_replaced"] += ops[k] == "m"
+            datas = got.get(k)
+            orig = w_data(k)
+            if not datas or len(datas) != 1:
+                chk.violation(dict(rep, kind="property-fails-on-implementation", why="stream %d (object %d) is %s in the output" % (k, num, "missing" if not datas else "duplicated")),
+                              signature="C16:writer-api:lost")
+                continue
+            data = datas[0]
+            changed = data != orig
+            # independent judgement: only page content, only with normalisation on, and never a stream whose filtering was switched off
+            # (QPDFObjectHandle.hh, setFilterOnWrite: "the stream data will be written ... without any filtering")
+            may = judge[k] and eff[c] and ops[k] != "f"
+            if changed and not may:
+                chk.violation(dict(rep, kind="property-fails-on-implementation", stream_marker=k, object=num, roles=rl, op=ops[k],
+                                   why=("a stream that is not page content was rewritten" if not judge[k] else
+                                        "page content was rewritten although " + ("filtering on write was switched off for it" if ops[k] == "f" else "content normalisation is off")),
+                                   input_data=repr(orig), output_data=repr(data)), signature="C16:writer:non-content-normalised")
+                continue
+            if changed:
+                stats["normalised"] += 1
+                nontriv.add((i, c, k, ops[k]))
+            md = mod.get(num)
+            if md is not None and enc == "flate" and ops[k] != "m" and md[0] == stored:
+                md = (orig, md[1])
+            if md != (data, changed):
+                tie.append((ji, k, num, data, mod.get(num)))
+    if tie:
+        ji, k, num, data, m = tie[0]
+        chk.violation({"kind": "correspondence-broken", "correspondence": "corr:C16:writer-api", "differing_cases": len(tie), "replay": lines_d[ji][:1500],
+                       "model_line": lines_m[ji][:1500], "stream_marker": k, "object": num, "implementation": repr(data), "model": repr(m),
+                       "note": "the extracted writer model (ci_write_all) and QPDFWriter disagree on what is written for a stream after setFilterOnWrite / replaceStreamData, "
+                               "but no stream outside page content was rewritten"}, no_input=True)
+    chk.count("writer-api", stats["streams_judged"], nontriv, samples=[{"driver": lines_d[j][:300]} for j in (0, len(jobs) - 1)])
+    chk.cov["parts"]["writer-api"].update(stats)
+
+
+def replay_writer(chk, rep):
+    """re-run the job of a writer / writer-api report and show what was written for every marked stream"""
+    drv = os.path.join(common.DRV, "drv")
+    out = None
+    if rep.get("argv"):
+        argv = rep["argv"][1:]
+        rc, so, se = common.run_qpdf(argv, timeout=60)
+        print("qpdf", " ".join(argv), "-> exit", rc, se.decode("latin-1")[-400:])
+        out = argv[-1]
+    elif isinstance(rep.get("replay"), str) and rep["replay"].startswith("ciwriteapi"):
+        print(common.run_lines(drv, [rep["replay"]])[0])
+        out = rep["replay"].split(" ")[2]
+    if out and os.path.exists(out):
+        got = out_streams(out) or {}
+        bad = 0
+        for k, datas in sorted(got.items()):
+            for dta in datas:
+                same = dta == w_data(k)
+                print("stream %d: %s %r" % (k, "unchanged" if same else "REWRITTEN", dta))
+                bad += (not same) and k == rep.get("stream_marker")
+        return 1 if bad else 0
+    return 0
